@@ -359,6 +359,14 @@ fn main() {
                     _ => "UNKNOWN".to_string(),
                 }
             }
+            // wlen <int|short> <usize>: the checked length writers: OK <bytes hex> / ERR <bytes hex|->
+            "wlen" => {
+                use scylla_cql::frame::types::verif_hooks as vt;
+                let v = a[2].parse::<usize>().unwrap();
+                let mut buf = Vec::new();
+                let ok = if a[1] == "int" { vt::checked_int_length(v, &mut buf) } else { vt::checked_short_length(v, &mut buf) };
+                format!("{} {}", if ok { "OK" } else { "ERR" }, if buf.is_empty() { "-".to_string() } else { hex(&buf) })
+            }
             // errbody <negotiated rate-limit error code|-> <body hex|->: Error::deserialize of an ERROR body, rendered canonically (texts as written, ids in hex)
             "errbody" => {
                 use scylla_cql_core::frame::protocol_features::ProtocolFeatures;
